@@ -594,7 +594,7 @@ func (ex *Executor) builtin(st *State, fr *Frame, b *ssa.Builtin, cc *ssa.CallCo
 		// contents: dst[i] = src[i] for i < n  (quantified fact over the new element array)
 		elemTy := cc.Args[0].Type().Underlying().(*types.Slice).Elem()
 		srt := sortOf(elemTy)
-		name := elemName(srt)
+		name := elemNameT(elemTy)
 		e := st.heapGet(name, arrayOf(arrayOf(srt)))
 		newArr := Fresh("copied", arrayOf(srt))
 		oldArr := Select(e, ex.sarr(dst.T))
@@ -642,7 +642,7 @@ func (ex *Executor) builtin(st *State, fr *Frame, b *ssa.Builtin, cc *ssa.CallCo
 func (ex *Executor) appendSlices(st *State, s, x Val, sty types.Type) Val {
 	elemTy := sty.Underlying().(*types.Slice).Elem()
 	srt := sortOf(elemTy)
-	name := elemName(srt)
+	name := elemNameT(elemTy)
 	e := st.heapGet(name, arrayOf(arrayOf(srt)))
 	var xlen *Term
 	xIsString := x.Ty != nil && isString(x.Ty)
@@ -842,7 +842,7 @@ func (ex *Executor) writtenInBlocksP(fn *ssa.Function, blocks map[*ssa.BasicBloc
 						w[fieldMapName(owner, f.Name())] = true
 					}
 				case *ssa.IndexAddr:
-					w[elemName(sortOf(x.Val.Type()))] = true
+					w[elemNameT(x.Val.Type())] = true
 				case *ssa.Global:
 				default:
 					el := x.Addr.Type().Underlying().(*types.Pointer).Elem()
@@ -879,6 +879,7 @@ func (ex *Executor) callWrites(cc *ssa.CallCommon, w map[string]bool) {
 		switch b.Name() {
 		case "append", "copy":
 			w["E.Int"] = true
+			w["E.Int.u8"] = true
 			w["E.Bool"] = true
 		case "delete":
 			w["M.dom"] = true
